@@ -1959,7 +1959,9 @@ def one_shot_state(ctx, rule, cname):
     c = ctx.M.cls(cname)
     if c is None or c.lookup('__init__') is None:
         return
-    ps = summarise(ctx, cname + '.__init__', policy=default_policy)
+    from .symex import _is_generator
+    # (a generator method called by the constructor stays a call here: what is stored is the generator object it returns)
+    ps = summarise(ctx, cname + '.__init__', policy=lambda a_, b_, d_: default_policy(a_, b_, d_) and not _is_generator(b_))
     for p in normal(ps):
         for loc, v in p.heap.items():
             if not (loc[0] == 'attr' and loc[1] == V('self')):
